@@ -30,7 +30,7 @@ RULE = ("seeded generator of relay histories: (a) copyTwoWayEx/copyTwoWay of the
         "the dial is faked (ok, or an error with a message of 1..2048 bytes), the response is written to the fake stream by the real WriteTCPResponse, then relay and teardown; "
         "the client half runs in package client: the real clientImpl.TCP / tcpConn.Read (fast open on/off, buffers of 1..32768 bytes) on a real loopback QUIC stream whose peer parses the "
         "request with the real reader and serves exactly the bytes the server half wrote (response frame ++ Down sink), whole or cut inside the frame / inside the data, in scripted write sizes, "
-        "ended by FIN or reset; read-deadline histories (half of these cases): the application polls with SetReadDeadline(20 / 150 ms) and retries a Read that timed out, "
+        "ended by FIN or reset; read-deadline histories (half of these cases): the application polls with SetReadDeadline(20 / 400 ms) and retries a Read that timed out, "
         "the peer holds back before the response (the first Read of a fast-open connection fails before the response has arrived), right behind it, or inside the data, until a Read has timed out "
         "(never inside the response frame: see ASSUMPTIONS) - the bytes delivered to the application must still be exactly the bytes behind the response frame; both halves are joined into one case and evaluated against the composed model of model/C06_E2E.v (request phase over the script of the client stream, "
         "Reads of both loops against the scripts of their sources, response frame, stream_out, client_io); directed ones - a relay ends in one direction (EOF / error / veto / failed write) while its other direction is parked in "
@@ -574,7 +574,7 @@ def cli_case(c, o):
             pauses.add(len(frame) + 1 + int(cl["cutr"] * 7919) % n)
     return {"k": "cli", "fo": cl["fo"], "addr": c["req"]["addr"], "frame": frame.hex(), "ok": ok, "msg": msg.decode("ascii"),
             "a": c["down"]["a"], "b": c["down"]["b"], "n": n, "cut": cut, "chunks": cl["chunks"], "end": cl["end"], "bsz": bsz,
-            "pauses": sorted(pauses), "to": 20, "to2": 150}
+            "pauses": sorted(pauses), "to": 20, "to2": 400}
 
 
 CLS = {"nil": 0, "dial": 100, "eof": 1, "short": 2, "invalid": 3, "reset": 4, "": 0}
